@@ -54,6 +54,25 @@ def repeated_operation(ctx, rule, I=None):
 
 
 ALLOWED_KW = {"pattern", "string", "timeout"}
+ADDR_PROJECTIONS = (".split('::')[0]", ".partition('::')[0]", ".split('::', 1)[0]", ".split('::', maxsplit=1)[0]")
+
+
+def is_addr_projection(addr_expr: str, full_expr: str) -> bool:
+    """addr_expr is the text before the first '::' of full_expr (any of the equivalent spellings)"""
+    return any(addr_expr == full_expr + sfx for sfx in ADDR_PROJECTIONS)
+
+
+def search_hit(path) -> bool:
+    """did regex.search return a match on this path? (truthiness or an `is None` test of its result, either polarity)"""
+    for k, v, _ in path.conds:
+        ks = str(k)
+        if "regex.search(" not in ks and "re.search(" not in ks and ".search(" not in ks:
+            continue
+        if isinstance(k, tuple) and k[0] == "truth":
+            return bool(v)
+        if isinstance(k, tuple) and k[0] == "eq" and "None" in ks:
+            return not v
+    return False
 
 
 def scan_rules(ctx, R_api, R_stream, R_fwd=None):
@@ -120,13 +139,13 @@ def scan_rules(ctx, R_api, R_stream, R_fwd=None):
                     labels = s.path.cond_labels()
                     rep = s.reported(I)
                     hit = (mode == "all_finds" and any("yields an element" in l and not l.startswith("not ") for l in labels)) or \
-                          (mode == "first_find" and any(l == "match_result" for l in labels))
+                          (mode == "first_find" and search_hit(s.path))
                     calls = s.regex_calls(I)
                     src = calls[0]["name"] if calls else "?"
                     if hit:
-                        suffix = ".group(0).split('::')[0]" if only else ".group(0)"
-                        okrep = len(rep) == 1 and rep[0].startswith(src + "(") and rep[0].endswith(
-                            ("[*]" if mode == "all_finds" else "") + suffix)
+                        g0 = ("[*]" if mode == "all_finds" else "") + ".group(0)"
+                        okrep = len(rep) == 1 and rep[0].startswith(src + "(") and (
+                            rep[0].endswith(g0) if not only else any(rep[0].endswith(g0 + sfx) for sfx in ADDR_PROJECTIONS))
                         if not okrep:
                             bad.append(f"hit but reported {rep}")
                     elif rep:
